@@ -493,6 +493,13 @@ class BinaryExpression(MathExpression):
             )
             if parent_side == "left" and self_muldiv and parent_muldiv:
                 return True
+            # A product or quotient that is a divisor must keep its grouping
+            if (
+                parent_side == "right"
+                and self_muldiv
+                and isinstance(self.parent, DivideExpression)
+            ):
+                return True
         return False
 
     def __str__(self) -> str:
